@@ -102,6 +102,15 @@ class LayoutRules:
         is_obj = OHB in self.F.all_bases(cls)
         for p in paths:
             if p.thrown:
+                # L3 (torn object): an encoder that gives up does so before its first byte - a header that declares N bytes followed by fewer
+                # makes the reader take the next object's bytes for the rest of this one
+                if 'L3' in rules and is_obj:
+                    emitted = [it for it in p.items if not (it.width.is_const() and it.width.c == 0)]
+                    if emitted:
+                        rep.count('L3')
+                        rep.ob('L3', '%s|throws-after-%d-items' % (sc, len(emitted)), False, self.site(emitted[-1]),
+                               '%s: write() throws after it has emitted %d piece(s) of the object [when %s] - the stream holds a header that declares more '
+                               'bytes than follow' % (sc, len(emitted), guards_str(p.guards)), nontrivial=True)
                 continue
             g = guards_str(p.guards)
             S = p.menv.get(('objectSize',))
@@ -476,6 +485,17 @@ class LayoutRules:
                         if later:
                             problems.append(('L2r', 'overwritten:%s@%s' % (fmt_path(a.path), short(a.fn)), '%s: read() changes the member (line %s) after taking it from the image: '
                                              'the bytes of the image are not what write() re-emits' % (fmt_path(a.path), later[0][2]), self.site(a)))
+                    # a length the encoder derives from its container is the length the decoder took from the image - provided the decoder gave
+                    # the container exactly that many elements (a decoder that clamps the count re-encodes a shorter object with another length field)
+                    if b.value is not None and a.path in R.menv and a.path in recomputed and a.path not in (('objectSize',), ('headerSize',)) and \
+                            a.src == 'member' and isinstance(a.extra, dict) and a.extra.get('scalar'):
+                        vr = sym.subst_eq(sym.drop_trunc(R.menv[a.path]), W.guards)
+                        vw = sym.subst_eq(sym.drop_trunc(b.value), W.guards)
+                        # (only clamped counts are judged here: a count rounded by the element size, or a struct length that is a constant of the
+                        # format, re-encodes identically for every image a Vector tool writes)
+                        if vr != vw and ' min ' in repr(vw):
+                            problems.append(('L2r', 'recomputed:' + fmt_path(a.path), '%s: the image says %r, write() recomputes %r from what read() stored - the decoder '
+                                             'did not keep as many elements as the image declares' % (fmt_path(a.path), R.menv[a.path], b.value), self.site(b)))
                     if b.value is not None and a.path in R.menv and b.value != R.menv[a.path] and a.path not in recomputed:
                         problems.append(('L2r', 'value:' + fmt_path(a.path), '%s: read %r, re-emitted %r' % (fmt_path(a.path), R.menv[a.path], b.value), self.site(b)))
                 else:
